@@ -1,6 +1,7 @@
 package main
 
 import (
+	"slices"
 	"fmt"
 	"go/token"
 	"go/types"
@@ -984,6 +985,20 @@ func (p *Prov) justify1(s *Sink) string {
 	}
 	tbl := func(name string) bool {
 		return has(func(a Atom) bool { return a.Kind == "tbl" && a.Pol && a.Name == name })
+	}
+	// J12: Set(m, "k", <the member read with Get(m, "k")>) - the member is stored back under its
+	// own key: a no-op on the tree (position kept, same object). What the member holds is judged
+	// where it is walked in place, not here.
+	if s.Kind == "set" && s.Recv != nil && s.Key != nil {
+		if rv, kv, ok := getKeyValueOf(peel(s.Val)); ok && peel(rv) == peel(s.Recv) {
+			k1, c1 := constString(kv)
+			k2, c2 := constString(s.Key)
+			if c1 && c2 && k1 == k2 && slices.Contains(commandWrappers, k1) && isOrderedMapPtr(peel(s.Val).Type()) {
+				// (only the wrapped command documents, which the command walker rewrites in
+				// place - C01-R1 requires that; an array stored back is the raw array)
+				return "J12:member-stored-back-under-its-own-key"
+			}
+		}
 	}
 	// J10: the in-place array walker returns its (fully overwritten) parameter
 	if s.Kind == "return" {
